@@ -96,7 +96,7 @@ def run_prog_check(prop, props_files, tier, oracles, features=gen_prog.ALL, n_qu
     # systematic schedules: for small focused programs the model's choice tree is enumerated (all scripts with at most
     # three departures from "first offered task", capped) and every script is run on both sides: narrow interleavings
     # that random scripts hit with probability ~1% are covered
-    nexh = (exh_n[0] if tier == "quick" else exh_n[1]) if exhaustive else 0
+    nexh = min((exh_n[0] if tier == "quick" else exh_n[1]) if exhaustive else 0, 300)
     if nexh:
         small = []
         tries = 0
@@ -112,8 +112,8 @@ def run_prog_check(prop, props_files, tier, oracles, features=gen_prog.ALL, n_qu
             for pr in SYSTEMATIC.get(kind, []):
                 o_, b_ = pr.split(" ")
                 deep.append(["prog", "none", "-", "1", o_, b_])
-        sc = ctx.run_model("prog", ["scripts %d 2 %s %s" % (200 if tier == "quick" else 1200, f[4], f[5]) for f in small]
-                           + ["scripts %d 2 %s %s" % (2500 if tier == "quick" else 20000, f[4], f[5]) for f in deep])
+        sc = ctx.run_model("prog", ["scripts %d 2 %s %s" % (200 if tier == "quick" else 600, f[4], f[5]) for f in small]
+                           + ["scripts %d 2 %s %s" % (2500 if tier == "quick" else 10000, f[4], f[5]) for f in deep])
         small = small + deep
         nsys = 0
         for f, line in zip(small, sc):
